@@ -688,6 +688,10 @@ func c04Run(toks []string) (obs string) {
 				case w != nil:
 					exported.Returns(vals...)
 				case mode == "eval":
+					if len(vals) == 0 { // DefMocker.Returns / MethodMocker.Returns: no values at all is Return()
+						create(nil, []interface{}{})
+						return
+					}
 					create(nil, nil)
 					w.Returns(vals...)
 				default:
@@ -727,13 +731,14 @@ func c04Run(toks []string) (obs string) {
 				}
 				alts = append(alts, v)
 			}
+			if w == nil && mode != "eval" {
+				// the mockers offer no In before a When/Return (a first Returns() without values is a Return() now);
+				// a configuration that starts with In exists only on a When made by CreateWhen directly
+				return "bad-op"
+			}
 			step = func() {
 				if w == nil {
-					if mode == "eval" {
-						create(nil, nil)
-					} else {
-						w = exported.Returns() // creates the When without default and applies the stub
-					}
+					create(nil, nil)
 				}
 				w.In(alts...)
 			}
